@@ -79,6 +79,10 @@ def pairs(tier):
                       ('w_cass', lambda i: [A(Index('warr', i), V('wb'), '+=')])):
             if n.startswith('w_') and k == 3: continue
             add('rw/regidx/%s/%s=%d' % (n, reg, k), mk(V(reg)), mk(C(k)), assume={reg: k})
+    # the mirrored comparison / register-index rewrites inside contexts that consult cached flag and register knowledge afterwards
+    import families3
+    for pid, s1, s2, assume in families3.ctx_rewrites(tier):
+        add('rw/' + pid, s1, s2, assume=assume)
     # call vs body written in place
     F = Func
     ret = lambda e: Return(e)
